@@ -56,6 +56,19 @@ theorem merge_of_rewrite (d1 d2 : String) (h1 : d1 ≠ "none") (h2 : d2 ≠ "non
       ∧ merge [(true, d1), (false, d2)] = .both ∧ merge [(false, d2), (true, d1)] = .both := by
   simp [merge, step, h1, h2, Iface.hasPub, Iface.hasPriv]
 
+/-- a group is an encapsulation group exactly when some `relationship_ref` says so … -/
+theorem encapsulation_iff (refs : List (Option String)) :
+    isEncapsulation refs = true ↔ some "encapsulation" ∈ refs := by
+  simp [isEncapsulation]
+
+/-- … wherever that `relationship_ref` stands among the others -/
+theorem encapsulation_perm (l l' : List (Option String)) (h : l.Perm l') : isEncapsulation l = isEncapsulation l' :=
+  h.any_eq
+
+theorem encapsulation_append (l l' : List (Option String)) :
+    isEncapsulation (l ++ l') = (isEncapsulation l || isEncapsulation l') := by
+  simp [isEncapsulation]
+
 theorem respell_idem (u : String) : respell (respell u) = respell u := by
   unfold respell
   by_cases h1 : u = "liter"
@@ -72,6 +85,8 @@ theorem gate : loads true .v10 = false ∧ loads true .v11 = false ∧ loads tru
     ∧ loads false .v10 = true ∧ loads false .v11 = true ∧ loads false .v20 = true ∧ ∀ s, loads s .other = false := by
   refine ⟨rfl, rfl, rfl, rfl, rfl, rfl, fun s => rfl⟩
 
+example : isEncapsulation [some "containment", some "encapsulation", none] = true := by decide
+example : isEncapsulation [some "containment", some "Encapsulation"] = false := by decide
 example : merge [(true, "none"), (false, "in")] = .priv := by decide
 example : merge [(false, "out"), (true, "in")] = .both := by decide
 
